@@ -18,10 +18,11 @@ CONSTANTS
   Shapes = {"ok", "short"}
   LevelKinds = {"node", "module", "param"}
   Kinds = {"updateEvent", "updateItem"}
-  Behs = {"ok", "oneshot", "raise"}
+  Behs = {"ok", "oneshot"}
   InitDescs <- GenInit
   Descs <- GenDescs
   GIdents <- GIdentsQ
+  GActions = {"update", "reply", "changed", "error_update", "error_read"}
   GLevels <- GLevelsQ
   EmitOneIn = 1
   MaxCbs = 2
